@@ -2,7 +2,7 @@
 import re
 from .. import cfg, idioms, sql
 from ..flow import FlowGraph
-from ..idioms import EVENTLOG, cname
+from ..idioms import EVENTLOG, cname, last_seg
 
 EVENT_TABLES_FN = "sos_database::entity::event::EventTable::as_str"
 ID_COLUMN_FN = "sos_database::entity::event::EventTable::id_column"
@@ -67,6 +67,13 @@ def r1_sql_scoping(ctx):
                 cond = seg[wi:] if wi >= 0 else ""
                 if not ("\ufffd" in cond or any(re.search(r"\b%s\b" % c, cond) for c in owner_cols)):
                     sub_bad = seg.strip()[:80]
+                # a sub-select that resolves a commit hash to one row must take
+                # the most recent one (rewind removes from the end of the log)
+                if re.search(r"\bcommit_hash\b", cond) and re.search(r"\bevent_id\b", seg[:wi if wi >= 0 else len(seg)]) \
+                        and not re.search(r"\bMAX\s*\(", seg[:wi], re.I) and not re.search(r"ORDER\s+BY\s+event_id\s+DESC", seg, re.I):
+                    r.violation(key + "|subquery-last", st.where(),
+                                "the sub-select resolves a commit hash to an event row without taking the most recent one (MAX(event_id)): with byte-identical events an earlier row is removed",
+                                work=len(st.clauses))
             if sub_bad is not None:
                 r.violation(key + "|subquery", st.where(),
                             "a sub-select inside the %s on an event table is not restricted to the owning log (`%s`): it can pick a row of another log with the same commit hash" % (st.kind.upper(), sub_bad),
@@ -179,6 +186,34 @@ def r2_tree_follows_storage(ctx):
                                 work=len(body.blocks), witness=cfg.path_lines(body, p))
                 else:
                     r.ok(k, cfg.loc(body), "every Ok exit of rewind passes %s" % label, work=len(body.blocks))
+        if is_rewind:
+            # the storage side is cut at the LAST occurrence of the target
+            # commit (reverse scan / MAX(event_id)); byte-identical events have
+            # equal hashes, so the tree must be cut by what was removed and
+            # never by a forward search for the hash
+            fg = FlowGraph(ws, fn)
+            FWD = re.compile(r"::(position|find|find_map|skip_while|take_while|map_while|binary_search|binary_search_by|iter_position|contains)$")
+            BWD = re.compile(r"::(rposition|rfind|rev)$")
+            n_tr = 0
+            for bb in fn.bodies:
+                for i, t in idioms.real_calls(bb, cfg.live_blocks(bb)):
+                    if re.search(r"Vec.*::truncate$", t.get("callee") or ""):
+                        n_tr += 1
+                        sl = fg.back_from_operand(bb, t["args"][1])
+                        names = [ct.get("callee") or "" for _b, _i, ct in sl.calls]
+                        fwd = [n for n in names if FWD.search(n)]
+                        bwd = [n for n in names if BWD.search(n)]
+                        k = key + "|tree-cut-length"
+                        if fwd and not bwd:
+                            r.violation(k, cfg.loc(bb, i),
+                                        "the new tree length is found by a forward search (%s) while storage is cut at the last occurrence of the commit: a log that holds the same event twice is cut in different places in memory and in storage" % last_seg(fwd[0]),
+                                        work=len(sl.nodes))
+                        elif any(re.search(r"::len$", n) for n in names):
+                            r.ok(k, cfg.loc(bb, i), "the tree is shortened by a length computed from the removed records (len arithmetic)", work=len(sl.nodes))
+                        else:
+                            r.ok(k, cfg.loc(bb, i), "tree cut length derives from %s (no forward hash search)" % sorted({last_seg(n) for n in names})[:6], work=len(sl.nodes))
+            if not n_tr:
+                r.ok(key + "|tree-cut-length", cfg.loc(body), "no Vec::truncate of the leaves here (tree rebuilt another way)", work=1)
         # hashes appended come from record.commit()
         if not is_rewind:
             fg = FlowGraph(ws, fn)
